@@ -159,3 +159,20 @@ Theorem C02_trace_valid_index : forall (H : bytes -> id) min max d data, W <= mi
   k_out (p_c (finish data s')) = seq_index min max d data \/ Collision H.
 Proof. intros H min max d data Hmin Hmax Hpos n evs s'. exact (trace_valid_index H min max d data Hmin Hmax Hpos n evs s'). Qed.
 Print Assumptions C02_trace_valid_index.
+
+(* ... and "follows" means the same visible effect: a model step matched with a recorded send
+   appends exactly that chunk to the worker's bucket; one matched with a recorded receive takes
+   exactly that chunk from the head of the next worker's bucket and makes it its sync chunk
+   (likewise label_empty_sound, label_exit_sound, label_skip_sound in Proofs/PChunkerTraceProofs.v). *)
+Theorem C02_trace_send_sound : forall (H : bytes -> id) min max d data s i c s',
+  label_worker min max d data s i = LSend c -> step_worker H min max d data s i = Some s' ->
+  w_emit (getw s' i) = w_emit (getw s i) ++ [c].
+Proof. exact label_send_sound. Qed.
+Print Assumptions C02_trace_send_sound.
+
+Theorem C02_trace_recv_sound : forall (H : bytes -> id) min max d data s i j v s',
+  label_worker min max d data s i = LRecv j v -> step_worker H min max d data s i = Some s' ->
+  j = w_next (getw s i) /\ bucket_head (getw s j) = Some v /\
+  (i <> j -> j < nworkers s -> w_cons (getw s' j) = S (w_cons (getw s j)) /\ w_sync (getw s' j) = Some v).
+Proof. exact label_recv_sound. Qed.
+Print Assumptions C02_trace_recv_sound.
